@@ -50,7 +50,9 @@ func main() {
 					_, _ = fmt.Fprintf(os.Stderr, "error: \"%s\" is a directory. Specify -r to recurse into directories.", f)
 					os.Exit(1)
 				}
-				inspectDirectory(f, depth)
+				if err := inspectDirectory(f, depth); err != nil {
+					log.Fatalln(err)
+				}
 			} else {
 				inspectFile(f)
 			}
@@ -58,20 +60,23 @@ func main() {
 	}
 }
 
-func inspectDirectory(f string, remainingDepth int) {
+// inspectDirectory reports the regular files below f. The error says that f itself could not be listed (completely);
+// whatever entries could be read have been visited all the same.
+func inspectDirectory(f string, remainingDepth int) error {
 	if remainingDepth < 0 {
-		return
+		return nil
 	}
 
 	entries, err := os.ReadDir(f)
-	if err != nil {
-		log.Fatalln(err)
-	}
 
 	for _, e := range entries {
 		p := filepath.Join(f, e.Name())
 		if e.IsDir() {
-			inspectDirectory(p, remainingDepth-1)
+			// a subdirectory that cannot be listed (no permission, path too long, removed meanwhile) is reported and
+			// skipped like any other entry that cannot be opened: it must not end the scan of its parents
+			if err := inspectDirectory(p, remainingDepth-1); err != nil {
+				log.Printf("error processing directory %#v: %v", p, err)
+			}
 		} else if s, err := os.Stat(p); err != nil {
 			log.Printf("error processing file %#v: %v", p, err)
 		} else if !s.Mode().IsRegular() {
@@ -81,6 +86,8 @@ func inspectDirectory(f string, remainingDepth int) {
 			inspectFile(p)
 		}
 	}
+
+	return err
 }
 
 func inspectFile(filePath string) {
